@@ -497,3 +497,68 @@ fn extents12_two_clusters() { extents_check(FatType::Fat12, 2); }
 #[kani::proof]
 #[kani::unwind(8)]
 fn extents32_empty() { extents_check(FatType::Fat32, 0); }
+
+// ------------------------------------------------------------------------------------------- single faults at File level (C09)
+
+use crate::verif_support::dev::FAULT;
+
+/// op: 0 read across a boundary start 1 write with allocation 2 write in the middle 3 seek forward two clusters
+/// 4 truncate 5 flush with pending metadata 6 extents
+fn fault_file_check(ft: FatType, op: u8) {
+    let fault_at: u32 = kani::any();
+    let g = geo(ft);
+    let mut dev = mk_dev(ft, 3);
+    dev.fault_at = fault_at;
+    dev.budget = 120;
+    let fs = core::mem::ManuallyDrop::new(mk_fs_plain(dev, &g, any_clock(), false));
+    // concrete state per operation: size 1536 (three full clusters) unless noted
+    let (k, off) = match op { 0 => (0usize, 512u32), 1 => (2, 1536), 2 => (1, 700), 3 => (usize::MAX, 0), 4 => (0, 300), 5 => (usize::MAX, 0), _ => (usize::MAX, 0) };
+    let mut f = core::mem::ManuallyDrop::new(mk_file(&*fs, 3, k, 1536, off));
+    let mut buf = [0u8; 16];
+    let wbuf = [7u8; 16];
+    let (fault, ok) = match op {
+        0 => { let r = f.read(&mut buf); (matches!(r, Err(Error::Io(t)) if t == FAULT), matches!(r, Ok(16))) }
+        1 => { let r = f.write(&wbuf); (matches!(r, Err(Error::Io(t)) if t == FAULT), matches!(r, Ok(16))) }
+        2 => { let r = f.write(&wbuf); (matches!(r, Err(Error::Io(t)) if t == FAULT), matches!(r, Ok(16))) }
+        3 => { let r = f.seek(SeekFrom::Start(1400)); (matches!(r, Err(Error::Io(t)) if t == FAULT), matches!(r, Ok(1400))) }
+        4 => { let r = f.truncate(); (matches!(r, Err(Error::Io(t)) if t == FAULT), r.is_ok()) }
+        5 => {
+            f.entry.as_mut().unwrap().set_size(9);
+            let r = Write::flush(&mut *f);
+            (matches!(r, Err(Error::Io(t)) if t == FAULT), r.is_ok())
+        }
+        _ => {
+            let mut it = f.extents();
+            let mut n = 0;
+            let mut fault = false;
+            let mut i = 0;
+            while i < 4 {
+                match it.next() { Some(Ok(_)) => n += 1, Some(Err(Error::Io(t))) => { if t == FAULT { fault = true; } break; }, Some(Err(_)) => break, None => break }
+                i += 1;
+            }
+            core::mem::forget(it);
+            (fault, n == 3)
+        }
+    };
+    let d = fs.disk.borrow();
+    assert!(!d.oob);
+    if d.fired { assert!(fault); } else { assert!(ok); }
+    kani::cover!(d.fired && fault_at >= 1);
+    kani::cover!(!d.fired);
+}
+macro_rules! fault_file_case {
+    ($name:ident, $ft:expr, $op:expr) => {
+        #[kani::proof]
+        #[kani::unwind(130)]
+        fn $name() { fault_file_check($ft, $op); }
+    };
+}
+/// C09: a single device fault at ANY call position during a File operation is returned as Error::Io(device error).
+fault_file_case!(fault_file_read16, FatType::Fat16, 0);
+fault_file_case!(fault_file_write_alloc12, FatType::Fat12, 1);
+fault_file_case!(fault_file_write_alloc32, FatType::Fat32, 1);
+fault_file_case!(fault_file_write_mid16, FatType::Fat16, 2);
+fault_file_case!(fault_file_seek12, FatType::Fat12, 3);
+fault_file_case!(fault_file_truncate16, FatType::Fat16, 4);
+fault_file_case!(fault_file_flush32, FatType::Fat32, 5);
+fault_file_case!(fault_file_extents16, FatType::Fat16, 6);
